@@ -229,7 +229,17 @@ def negative_hint_replay(ctx):
         asan = "AddressSanitizer" in err
         ctx.coverage.setdefault("negative_hint_replay", {})[tab] = dict(rc=rc, asan_report=asan,
                                                                         kind=(re.search(r"AddressSanitizer: ([a-z\-]+)", err) or [None, None])[1])
-        if asan or (rc != 0 and len(out) < len(ops)):
+        san = asan or "runtime error" in err or (rc != 0 and len(out) < len(ops))
+        try:
+            h = ops[1].split()[2:4]
+            mres = ctx.driver(["basis.fromhint 1 %s %s 0 0 1 0" % (h[0], h[1])])[0]
+        except Exception as e:
+            mres = "driver-error"
+        if san:
+            ctx.obligation("model reports `oob` exactly where the sanitizer reports the out-of-bounds read (%s[-1])" % tab, mres == "oob", mres)
+        else:
+            ctx.coverage["negative_hint_replay"][tab]["note"] = "no sanitizer report: the code no longer reads out of bounds; from_hint_negative_oob describes the pinned code only"
+        if san:
             ctx.violation(key, "ec_curve_to_basis_2f_from_hint with a negative hint reads %s[-1] (guard is only `hint < 20`); hints come from the signature / public key" % tab,
                           dict(level=1, ops=ops, asan=err[-1200:], theorem="SqiProps.C10.from_hint_negative_oob",
                                how="ASan build of the repo + tools/harness/drv_basis.c, feed the ops"))
